@@ -77,9 +77,7 @@ class iter_indices_of_newlines:
         return len(raw_str) - init_idx
 
 
-TemplatedFile = ref_class("sqlfluff.core.templaters.base:TemplatedFile",
-                          source_str=StrA, templated_str=StrA,
-                          _source_newlines=TList(INT), _templated_newlines=TList(INT))
+from .types import TemplatedFile  # noqa: E402
 
 
 @contract("sqlfluff.core.templaters.base:TemplatedFile.get_line_pos_of_char_pos", PROP)
@@ -125,30 +123,6 @@ class infer_next_position:
         return result == (line_no + cnt(raw, len(raw)),
                           line_pos + len(raw) if cnt(raw, len(raw)) == 0 else len(raw) - lastnl(raw, len(raw)))
 
-
-# ------------------------------------------------------------------ native builders (replay / bounded search)
-def _build_tf(rng, gen):
-    from sqlfluff.core.templaters.base import TemplatedFile as TF, TemplatedFileSlice, RawFileSlice
-    src = gen.value(StrA)
-    if rng.random() < 0.5:
-        return TF(source_str=src, fname="<replay>")
-    tpl = gen.value(StrA)
-    return TF(source_str=src, fname="<replay>", templated_str=tpl,
-              sliced_file=[TemplatedFileSlice("templated", slice(0, len(src)), slice(0, len(tpl)))],
-              raw_sliced=[RawFileSlice(src, "templated", 0)])
-
-
-def _tf_from_model(fields):
-    from sqlfluff.core.templaters.base import TemplatedFile as TF, TemplatedFileSlice, RawFileSlice
-    src, tpl = fields.get("source_str", ""), fields.get("templated_str", "")
-    return TF(source_str=src, fname="<replay>", templated_str=tpl,
-              sliced_file=[TemplatedFileSlice("templated", slice(0, len(src)), slice(0, len(tpl)))],
-              raw_sliced=[RawFileSlice(src, "templated", 0)])
-
-
-from pyvc import replay as _replay  # noqa: E402
-_replay.BUILDERS["TemplatedFile"] = _build_tf
-_replay.FROM_MODEL["TemplatedFile"] = _tf_from_model
 
 TRUSTED = ["z3 RecFunction unfolding of the spec functions cnt / lastnl"]
 NOT_COVERED = ["callers outside the three functions (who passes which offset) are covered under C23"]
